@@ -1221,7 +1221,7 @@ def popfw(info):
 def pushad(info):
     e = []
     opmode, admode = info.opmode, info.admode
-    if opmode == u16:
+    if opmode == x86_afs.u16:
         s = 16
         regs = [eax[:16], ecx[:16], edx[:16], ebx[:16],
                 esp[:16], ebp[:16], esi[:16], edi[:16]]
@@ -1237,7 +1237,7 @@ def pushad(info):
 def popad(info):
     e = []
     opmode, admode = info.opmode, info.admode
-    if opmode == u16:
+    if opmode == x86_afs.u16:
         s = 16
         myesp = esp[:16]
         regs = [eax[:16], ecx[:16], edx[:16], ebx[:16],
